@@ -177,9 +177,10 @@ class UnquoteModel(object):
             return False
         return None
 
-    def decision(self, byte, params):
+    def decision(self, byte, params, prefix=b""):
         """'decode' | 'keep' | 'other' for a byte value: the loop body is interpreted (finite domain) on every
-        hex spelling of the byte followed by a marker tail; 'decode' if any spelling is decoded."""
+        hex spelling of the byte followed by a marker tail; 'decode' if any spelling is decoded.
+        `prefix` is what the output buffer already holds (context of a dangling '%')."""
         from .microeval import _Interp, Native, _Break, _Continue, _Return
         table = self.repo.const(self.q, "HEX_TO_BYTE")
         spellings = [k for k, v in table.items() if v == bytes([byte])]
@@ -189,7 +190,7 @@ class UnquoteModel(object):
         self.last_spelling = None
         for sp in sorted(spellings):
             item = sp + b"/t"
-            rec = bytearray()
+            rec = bytearray(prefix)
             env = dict(self.defaults)
             env.update(params)
             env[self.itemvar] = item
@@ -206,9 +207,9 @@ class UnquoteModel(object):
             except Unknown as e:
                 raise AnalysisError("quote._unquote_impl: loop body not interpretable on %r: %s" % (item, e))
             out = bytes(env[self.resvar]) if env[self.resvar] is not rec else bytes(rec)
-            if out == b"%" + item:
+            if out == prefix + b"%" + item:
                 outcomes.add("keep")
-            elif out == bytes([byte]) + b"/t":
+            elif out == prefix + bytes([byte]) + b"/t":
                 outcomes.add("decode")
                 self.last_spelling = sp
             else:
